@@ -18,23 +18,31 @@ RULE = ("(a) random: generated point clouds (<=300 points quick / <=2000 thoroug
         "surfaces, special topologies. Each case: real encode, real decode (plain and with all transforms skipped), "
         "model decode of the same bytes (must agree token for token where the model covers the method), and the "
         "executable Lean specification RoundTripOK evaluated on the implementation's outputs; distinct op lines; "
-        "input_distribution lists the member of every option family each case used and the stream class produced")
+        "input_distribution lists the member of every option family each case used and the stream class produced"
+        '; sequential encoder ties (props/seqenc_cases.py, incl. global option fallbacks; the prediction scheme '
+        'is computed by the model, not read back), kd-tree and Edgebreaker encoder / decoder ties (kdcases, '
+        'ebcases, ebenc_cases), random option-store scripts on the real Options / EncoderOptions classes vs '
+        'DracoModel/Options.lean (props/options_cases.py)')
 THEOREM_BACKED = "see evidence.coverage.theorems"
 CORRESPONDENCE_ONLY = ("Edgebreaker: the connectivity link (that the decoder's connectivity stage rebuilds a table isomorphic to"
                        " the encoder's) and traversal coverage are hypotheses of eb_roundtrip_conditional_partial evaluated per "
                        'case, not proved; paths reported as stream:*:model:unsupported_* / model:none in input_distribution are '
                        "checked by RoundTripOK on the implementation's output only")
 EXPLANATION = ('composed end-to-end theorems for the model pairs of the sequential methods (DracoProps.C01: exactly '
-               'expected g opts, any trailing bytes) and of the kd-tree method (DracoProps.C01Kd: expectedKd up to the '
-               'order of points), each with the corollary that the executable specification RoundTripOK accepts the '
-               'proved result; Edgebreaker (DracoProps.C01Eb): side coders, the inverse of every prediction scheme, the '
-               'whole attribute value block, the isomorphism chain and the stream-level eb_roundtrip_conditional_partial'
-               ' (both decodes consume exactly the stream and RoundTripOK accepts, GIVEN the connectivity link hconn / '
-               'hnf, decoder-side facts hdec / hids, value conditions hvals, domain conditions hatt / huid / hproc / '
-               'hfits, the plan setting hs, the row correspondence hrows and traversal coverage hcover; every hypothesis'
-               ' discharged on a one-triangle stream) are proved; the connectivity round trip and coverage are NOT — '
-               'they are evaluated per case by the op ebenc (iso-ok, coverage, hyp-ok, rt-ok, counts-ok). All three '
-               'encoder models are tied byte for byte, the decoder model token for token')
+               'expected g opts, any trailing bytes; the encoder model computes SelectPredictionMethod itself — '
+               'seq_encoder_scheme_is_function_of_options, encodeGeometry_ignores_selectPrediction — and the option '
+               'store is modelled: options_get_set_int / _float, options_get_bool, draco_options_attribute_resolution) '
+               'and of the kd-tree method (DracoProps.C01Kd: expectedKd up to the order of points), each with the '
+               'corollary that the executable specification RoundTripOK accepts the proved result; Edgebreaker '
+               '(DracoProps.C01Eb): side coders, the inverse of every prediction scheme, the whole attribute value '
+               'block, the isomorphism chain and the stream-level eb_roundtrip_conditional_partial (both decodes consume'
+               ' exactly the stream and RoundTripOK accepts, GIVEN the connectivity link hconn / hnf, decoder-side facts'
+               ' hdec / hids, value conditions hvals, domain conditions hatt / huid / hproc / hfits, the plan setting '
+               'hs, the row correspondence hrows and traversal coverage hcover; every hypothesis discharged on a '
+               'one-triangle stream) are proved; the connectivity round trip and coverage are NOT — they are evaluated '
+               'per case by the op ebenc (iso-ok, coverage, hyp-ok, rt-ok, counts-ok). All three encoder models are tied'
+               ' byte for byte, the decoder model token for token (every method and bitstream version, kd-tree < 2.3 '
+               'included)')
 TIMEOUT = 900
 CHECKS = {"rt", "valid", "consumed", "corr"}
 
@@ -90,6 +98,25 @@ def generate(rng, tier):
             g = G.rand_point_cloud(rng, sz)
         toks, info = e2e.rand_options(rng, g)
         cases.append(case(g, toks, info, ("gen:random",)))
+    # ---- (a2) sequential point clouds whose delta histogram puts one symbol exactly on a size-class boundary of the
+    #      rANS probability table (2^14 at 15 / 16 bits of precision; counts chosen so that normalisation is exact);
+    #      the compression level follows max(encoding speed, decoding speed)
+    import struct as _st
+    for (m, p_, z) in [(256, 8, 4096), (512, 6, 2048), (256, 6, 1024)]:
+        for sp in ([1, 2, 3, 4] if thorough else [rng.choice([1, 2]), 3, 4]):
+            deltas = [0] * z + [k for k in range(1, m + 1) for _ in range(p_)] + [-k for k in range(1, m + 1) for _ in range(p_)]
+            rng.shuffle(deltas)
+            v, vals = 0, []
+            for d in deltas:
+                v += d
+                vals.append(v)
+            n = len(vals)
+            att = G.Attr(G.GENERIC, G.DT["i32"], 1, False, 0, n, None, b"".join(_st.pack("<i", x) for x in vals))
+            g = G.Geom(False, n, [], [att])
+            g.family = "step_values"
+            toks = ["method=0", f"speed={sp},{rng.randint(0, sp)}"]
+            info = {"expert": False, "req": {}, "track": False, "skip": None}
+            cases.append(case(g, toks, info, ("gen:symbol-table-boundary",)))
     reps = 4 if thorough else 1
     for _ in range(reps):
         # ---- (b1) every method class x every encoder speed (decoder speed random)
